@@ -66,7 +66,7 @@ func (w *World) Serve(q *Req) {
 			}
 		}()
 		q.W.HijackFails = q.Hijacker == 1
-		w.F.ServeHTTP(q.W.WriterFacets(q.Flusher, false, q.Hijacker != 0), req)
+		w.F.ServeHTTP(q.W.WriterFacets(q.Flusher, q.ReaderFrom, q.Hijacker != 0), req)
 	}()
 	cancel()
 	q.EndStamp = sched.Stamp()
@@ -271,4 +271,4 @@ func (q *Req) DescribeProgs() []string {
 
 // OpNames for reports.
 var OpNames = []string{"yield", "writeHeader", "write", "flush", "next", "nextSwallow", "cancel", "mapExtra", "seeExtra", "panic", "echo",
-	"mark", "checkMark", "setHeader", "before", "render", "redirect", "status", "cookie", "seeSvc", "seeHeaders", "mapIface", "seeIface", "invoke", "apply", "seeNamer", "httpError", "hijack", "setContentType", "setContentLength", "expireCtx", "mapOwnWriter", "seePath", "seeBody", "mapReturnHandler", "mutQuery", "replaceCtx"}
+	"mark", "checkMark", "setHeader", "before", "render", "redirect", "status", "cookie", "seeSvc", "seeHeaders", "mapIface", "seeIface", "invoke", "apply", "seeNamer", "httpError", "hijack", "copy", "setContentType", "setContentLength", "expireCtx", "mapOwnWriter", "seePath", "seeBody", "mapReturnHandler", "mutQuery", "replaceCtx"}
